@@ -60,6 +60,7 @@ type Engine struct {
 
 	mu         sync.Mutex
 	boundNotes map[string]int
+	globInit   map[*ssa.Package]map[*ssa.Global]bool
 }
 
 type prefixExt struct {
@@ -141,6 +142,7 @@ type Harness struct {
 	Explore   bool // scheduler exploration mode
 	Preempt   int
 	MustReach []string
+	Labels    []string // if non-empty: only assertions whose label has one of these prefixes are checked
 }
 
 type HarnessResult struct {
@@ -339,7 +341,7 @@ func (e *Engine) runPath(h *Harness, fn *ssa.Function, prefix []int, solver *Sol
 	res = &PathResult{Funcs: map[string]int{}, Stubs: map[string]int{}}
 	ex := &exec{eng: e, h: h, solver: solver, trace: prefix, occ: map[string]int{}, res: res, unwind: map[string]int{}}
 	ex.choiceInputs = map[string]string{}
-	it := &interpreter{prog: e.Prog, globals: map[*ssa.Global]*value{}, ex: ex, eng: e, initDone: map[*ssa.Package]bool{}}
+	it := &interpreter{prog: e.Prog, writtenGlobals: map[*ssa.Global]bool{}, globals: map[*ssa.Global]*value{}, ex: ex, eng: e, initDone: map[*ssa.Package]bool{}}
 	if e.Trace {
 		it.mode |= EnableTracing
 	}
@@ -425,6 +427,63 @@ func (e *Engine) renderPanic(ex *exec, v value) string {
 }
 
 // ---------------------------------------------------------------- globals / init
+
+// hasInitializer reports whether package init code writes to g (directly or
+// through a field/index address rooted at it).
+func (e *Engine) hasInitializer(g *ssa.Global) bool {
+	e.mu.Lock()
+	defer e.mu.Unlock()
+	if e.globInit == nil {
+		e.globInit = map[*ssa.Package]map[*ssa.Global]bool{}
+	}
+	m, ok := e.globInit[g.Pkg]
+	if !ok {
+		m = map[*ssa.Global]bool{}
+		var root func(v ssa.Value) *ssa.Global
+		root = func(v ssa.Value) *ssa.Global {
+			switch v := v.(type) {
+			case *ssa.Global:
+				return v
+			case *ssa.FieldAddr:
+				return root(v.X)
+			case *ssa.IndexAddr:
+				return root(v.X)
+			}
+			return nil
+		}
+		for _, mem := range g.Pkg.Members {
+			fn, ok := mem.(*ssa.Function)
+			if !ok || !(fn.Name() == "init" || len(fn.Name()) > 5 && fn.Name()[:5] == "init#") {
+				continue
+			}
+			for _, b := range fn.Blocks {
+				for _, in := range b.Instrs {
+					if st, ok := in.(*ssa.Store); ok {
+						if r := root(st.Addr); r != nil {
+							m[r] = true
+						}
+					}
+				}
+			}
+		}
+		e.globInit[g.Pkg] = m
+	}
+	return m[g]
+}
+
+// checkGlobalRead aborts the path when interpreted code reads a global whose
+// package initialiser was skipped but would have given it a value.
+func (i *interpreter) checkGlobalRead(g *ssa.Global) {
+	if g.Pkg == nil || i.shouldInit(g.Pkg) {
+		return
+	}
+	if i.writtenGlobals[g] {
+		return
+	}
+	if i.eng.hasInitializer(g) {
+		i.ex.unsupported("read of global " + g.String() + " whose package initialiser is not executed")
+	}
+}
 
 func (i *interpreter) global(g *ssa.Global) *value {
 	if r, ok := i.globals[g]; ok {
